@@ -431,6 +431,53 @@ func (w *World) payloadTableOf(fn *ssa.Function, re *regexp.Regexp, facts ...ato
 	return table
 }
 
+// p2Callers: the call sites of f, looking through method-expression thunks
+// (`(*T).m` stored in a table and called as a function value).
+func p2Callers(w *World, f *ssa.Function) []CallerSite {
+	var out []CallerSite
+	for _, cs := range w.Callers(f) {
+		if cs.Caller != nil && thunkTarget(cs.Caller) == f {
+			out = append(out, w.Callers(cs.Caller)...)
+			continue
+		}
+		out = append(out, cs)
+	}
+	return out
+}
+
+// tableTypesFor: when the call at site picks its callee from a literal dispatch
+// table keyed by the transaction type, the tx types whose entry is f; nil otherwise.
+func (w *World) tableTypesFor(site ssa.CallInstruction, f *ssa.Function) tyset {
+	if site.Common().StaticCallee() != nil || site.Common().IsInvoke() {
+		return nil
+	}
+	var lk *ssa.Lookup
+	switch y := stripConv(site.Common().Value).(type) {
+	case *ssa.Lookup:
+		lk = y
+	case *ssa.Extract:
+		lk, _ = y.Tuple.(*ssa.Lookup)
+	}
+	if lk == nil {
+		return nil
+	}
+	lm := w.literalMap(stripConv(lk.X))
+	if lm == nil {
+		return nil
+	}
+	out := tyset{}
+	for _, ent := range lm.Entries {
+		k, ok := matchTxType("(" + w.Canon(lk.Index) + " == " + keyString(ent.Key) + ")")
+		if !ok {
+			return nil
+		}
+		if cal, _ := w.calleeOfValue(ent.Val); cal == f {
+			out[k] = true
+		}
+	}
+	return out
+}
+
 func p2(w *World, r *Report, reach *Reach, scope []*ssa.Function) {
 	table := w.payloadTable(r)
 	if table == nil {
@@ -456,7 +503,7 @@ func p2(w *World, r *Report, reach *Reach, scope []*ssa.Function) {
 			continue
 		}
 		isRoot := true
-		for _, cs := range w.Callers(f) {
+		for _, cs := range p2Callers(w, f) {
 			if inScope[cs.Caller] && hasCtx(cs.Caller) {
 				isRoot = false
 			}
@@ -480,7 +527,7 @@ func p2(w *World, r *Report, reach *Reach, scope []*ssa.Function) {
 			if _, ok := entry[f]; !ok {
 				continue
 			}
-			for _, cs := range w.Callers(f) {
+			for _, cs := range p2Callers(w, f) {
 				if cs.Site == nil || !inScope[cs.Caller] {
 					continue
 				}
@@ -489,6 +536,17 @@ func p2(w *World, r *Report, reach *Reach, scope []*ssa.Function) {
 					continue
 				}
 				if s := fl[cs.Site.Block()]; s != nil {
+					// a handler picked from a dispatch table keyed by the tx type runs only
+					// for the types that map to it
+					if only := w.tableTypesFor(cs.Site, f); only != nil {
+						s2 := tyset{}
+						for k := range s {
+							if only[k] {
+								s2[k] = true
+							}
+						}
+						s = s2
+					}
 					if entry[f].union(s) {
 						changed = true
 					}
